@@ -21,6 +21,9 @@
 //	Down / Up      ("fault", "faultd") the face goes down (Engine.Stop) and comes back (Engine.Start): while it
 //	               is down Express fails to send and returns an error, nothing arrives
 //
+//	in=<arrival>   ("loop", "loopd") the face model's choice of DELIVERY POINT: a Data/Nack arrival is handed to
+//	               the engine inside face.Send of an Express, before Send (and Express) has returned
+//
 // This reproduces, sequentially and deterministically, every interleaving of timeout goroutines
 // with the receive path that the engine's pitLock allows (the lock makes onData/onNack/timeoutFunc
 // atomic with respect to each other, so interleavings at whole-callback granularity are all there
@@ -75,6 +78,10 @@ type hFace struct {
 	onPkt   func(r enc.ParseReader) error
 	onErr   func(err error) error
 	sent    [][]byte
+	// during != nil: the peer's answer is already on its way: it is delivered to the engine INSIDE the
+	// next Send, before Send returns (a loopback / in-process face, or a reader goroutine that wins the
+	// race against the sender). One-shot.
+	during func()
 }
 
 func (f *hFace) Open() error {
@@ -95,6 +102,10 @@ func (f *hFace) Send(pkt enc.Wire) error {
 		return errors.New("face is not running")
 	}
 	f.sent = append(f.sent, append([]byte{}, pkt.Join()...))
+	if d := f.during; d != nil {
+		f.during = nil
+		d()
+	}
 	return nil
 }
 
@@ -178,6 +189,7 @@ type intr struct {
 	nm     enc.Name
 	cbp    bool
 	life   time.Duration
+	noLife bool   // expressed without a lifetime (InterestConfig.Lifetime == nil): the protocol default of 4 s applies
 	dig    string // none | right | wrong
 	digest []byte
 	at     time.Time
@@ -222,7 +234,11 @@ func (x *intr) desc() string {
 	if x.failed {
 		r += ",Express returned an error (face down)"
 	}
-	return fmt.Sprintf("Interest(%s%s%s,%v%s)", x.name, c, d, x.life, r)
+	l := fmt.Sprint(x.life)
+	if x.noLife {
+		l = "no lifetime given = 4s default"
+	}
+	return fmt.Sprintf("Interest(%s%s%s,%s%s)", x.name, c, d, l, r)
 }
 
 type hcall struct {
@@ -268,7 +284,8 @@ type inst struct {
 	shared  bool
 	appCfg  *ndn.InterestConfig
 	appLife time.Duration
-	down    bool // the face is down (Engine.Stop was called): Send fails, nothing arrives
+	down    bool  // the face is down (Engine.Stop was called): Send fails, nothing arrives
+	sending *intr // != nil while an arrival is being delivered inside face.Send of this Interest's Express
 }
 
 func (in *inst) bad(clause, key, detail string) {
@@ -421,6 +438,7 @@ type cfgT struct {
 	audit     bool     // canon audit: no de-duplication (the history is part of the canonical state)
 	shared    bool     // application style: one InterestConfig struct re-used (and mutated) for every Express; Recfg events
 	faults    bool     // fault events: Down (Engine.Stop: the face refuses to send, deviation) / Up (Engine.Start)
+	inSend    bool     // face model: every Data/Nack arrival may also be delivered INSIDE face.Send of an Express (re-entrantly, before Express returns)
 }
 
 type sys struct {
@@ -479,6 +497,15 @@ func (s *sys) Ops(i any) []explore.Op {
 						add("Express(%s,cbp=%v,life=%d,dig=%s)", n, cb, l, d)
 						for _, r := range c.retries {
 							add("Express(%s,cbp=%v,life=%d,dig=%s,retry=%s)", n, cb, l, d, r)
+						}
+						if c.inSend && !in.down {
+							// the face model's choice of delivery point: the same arrivals, inside Send
+							for _, dn := range c.dataNames {
+								add("Express(%s,cbp=%v,life=%d,dig=%s,in=Data(%s))", n, cb, l, d, dn)
+							}
+							for _, nn := range c.nackNames {
+								add("Express(%s,cbp=%v,life=%d,dig=%s,in=Nack(%s))", n, cb, l, d, nn)
+							}
 						}
 					}
 				}
@@ -642,7 +669,11 @@ func (in *inst) callback(x *intr) ndn.ExpressCallbackFunc {
 			}
 		case "Timeout":
 			if el := in.tm.now.Sub(x.at); el < x.life {
-				in.bad("C20.timeout", "timeout result before the Interest lifetime elapsed", fmt.Sprintf("%s timed out %v after Express", x.desc(), el))
+				k := "timeout result before the Interest lifetime elapsed"
+				if x.noLife {
+					k += " (Interest expressed without a lifetime: protocol default of 4 s)"
+				}
+				in.bad("C20.timeout", k, fmt.Sprintf("%s timed out %v after Express", x.desc(), el))
 			}
 		case "Nack":
 			// "with a Nack for that name": the only event that may cause it is the arrival of a Nack
@@ -666,6 +697,105 @@ func (s *sys) satisfies(x *intr, dname string, d *dataPkt) bool {
 	return true
 }
 
+// arriveData: a Data packet for name arrives on the face (lp: "" bare, "tok"/"plain" in an NDNLPv2
+// frame) and the oracle for the arrival is evaluated: every pending Interest it satisfies must have
+// been resolved when the receive path returns. Called for a Data event of its own and for an
+// arrival inside face.Send (in.sending != nil: the Interest whose Express is transmitting).
+func (s *sys) arriveData(in *inst, name, lp string) {
+	in.curName = name
+	d := dataFor(name)
+	var must []*intr
+	for _, x := range in.ints {
+		if len(x.res) == 0 && !x.failed && s.satisfies(x, name, d) {
+			must = append(must, x)
+		}
+	}
+	// The implicit digest is that of the Data packet itself, however it is framed on the link.
+	if lp != "" {
+		in.face.onPkt(enc.NewBufferReader(lpWrap(d.wire, lp == "tok")))
+	} else {
+		in.face.onPkt(enc.NewBufferReader(d.wire))
+	}
+	for _, x := range must {
+		if len(x.res) == 0 {
+			if x == in.sending {
+				// the Interest is on the wire (Send was called with it): its answer may arrive from that moment on
+				why := "the Interest is not in the PIT while it is being transmitted"
+				if x.entry != nil {
+					why = "its entry was in the PIT"
+					if x.lostBy != "" {
+						why = x.lostBy
+					}
+				}
+				in.bad("C20.all", "Data arriving while Express is still transmitting the Interest (delivered inside face.Send) does not resolve it; "+why,
+					fmt.Sprintf("%s: the face delivered Data %s to the engine before Send returned; the Interest is satisfied by it, but its callback was not invoked (%s)", x.desc(), name, why))
+				continue
+			}
+			why := x.lostBy
+			if why == "" {
+				why = "its entry is still reachable in the PIT"
+			}
+			in.bad("C20.all", "arriving Data leaves a pending Interest it satisfies unresolved; "+why,
+				fmt.Sprintf("Data %s arrived, %s was pending and is satisfied by it, but its callback was not invoked (%s)", name, x.desc(), why))
+		}
+	}
+}
+
+func (s *sys) arriveNack(in *inst, name string) {
+	in.curName = name
+	in.face.onPkt(enc.NewBufferReader(nackWire(name)))
+}
+
+// findEntry: (white box) the identity of x's own record in the PIT node of its name: the last entry of
+// that node which belongs to no other Interest of the model; nil if there is none.
+func (in *inst) findEntry(x *intr) (node, entry any) {
+	owned := map[any]bool{}
+	for _, y := range in.ints {
+		if y != x && y.entry != nil {
+			owned[y.entry] = true
+		}
+	}
+	node = in.eng.VerifPitExact(x.nm)
+	if ch := basic.VerifPitChain(node); len(ch) > 0 {
+		for _, e := range ch[0].Entries {
+			if !owned[e] {
+				entry = e
+			}
+		}
+	}
+	return
+}
+
+// duringSend arms the face: the arrival described by ev ("Data(<name>)" / "Nack(<name>)") is
+// delivered inside the next face.Send, i.e. while Express for x is still running.
+func (s *sys) duringSend(in *inst, x *intr, ev string) {
+	kind, name := ev[:strings.Index(ev, "(")], strings.TrimSuffix(ev[strings.Index(ev, "(")+1:], ")")
+	in.face.during = func() {
+		// A receive path that needs the PIT lock cannot run while the sender holds it: on a real face this
+		// is a self-deadlock of the calling goroutine. Reported instead of performed.
+		if st := in.eng.VerifPitLockState(); st == "held" {
+			in.bad("C20.once", "Express calls face.Send with the PIT lock held: an answer delivered inside Send deadlocks the engine",
+				fmt.Sprintf("%s: face.Send was called while the engine's PIT lock was held; a face that hands the answer (%s) to the engine before Send returns blocks forever in the receive path, no Interest resolves any more", x.desc(), ev))
+			return
+		}
+		ok, on, oc := in.curKind, in.curName, in.sending
+		in.sending = x
+		// the record Express has (or has not yet) put into the PIT, before the arrival changes the trie
+		x.node, x.entry = in.findEntry(x)
+		in.curKind = kind
+		switch kind {
+		case "Data":
+			s.arriveData(in, name, "")
+		case "Nack":
+			s.arriveNack(in, name)
+		default:
+			report.Fatal("harness: unknown arrival %q", ev)
+		}
+		s.track(in)
+		in.curKind, in.curName, in.sending = ok, on, oc
+	}
+}
+
 // step executes one event on the real engine and evaluates the oracle for it.
 func (s *sys) step(in *inst, op string) []report.Violation {
 	in.viol = nil
@@ -685,39 +815,33 @@ func (s *sys) step(in *inst, op string) []report.Violation {
 		var l int
 		fmt.Sscanf(a[2], "life=%d", &l)
 		x.life = time.Duration(l) * ms
-		if len(a) > 4 {
-			x.retry = strings.TrimPrefix(a[4], "retry=")
+		if l < 0 {
+			// no lifetime in the InterestConfig: "If the InterestLifetime element is omitted, a default value of 4 seconds is used"
+			x.life, x.noLife = defaultLife, true
+		}
+		for _, p := range a[4:] {
+			switch {
+			case strings.HasPrefix(p, "retry="):
+				x.retry = strings.TrimPrefix(p, "retry=")
+			case strings.HasPrefix(p, "in="):
+				// the answer is delivered by the face inside Send, before Express has returned
+				s.duringSend(in, x, strings.TrimPrefix(p, "in="))
+			default:
+				report.Fatal("harness: unknown Express parameter %q in %s", p, op)
+			}
 		}
 		in.curName = x.name
 		in.express(x)
+		in.curKind, in.curName = "Express", x.name
+		in.face.during = nil // Express that never reached Send: the arrival did not happen
 	case "Data":
-		in.curName = a[0]
-		d := dataFor(a[0])
-		var must []*intr
-		for _, x := range in.ints {
-			if len(x.res) == 0 && !x.failed && s.satisfies(x, a[0], d) {
-				must = append(must, x)
-			}
-		}
-		// The implicit digest is that of the Data packet itself, however it is framed on the link.
+		lp := ""
 		if len(a) > 1 {
-			in.face.onPkt(enc.NewBufferReader(lpWrap(d.wire, a[1] == "lp=tok")))
-		} else {
-			in.face.onPkt(enc.NewBufferReader(d.wire))
+			lp = strings.TrimPrefix(a[1], "lp=")
 		}
-		for _, x := range must {
-			if len(x.res) == 0 {
-				why := x.lostBy
-				if why == "" {
-					why = "its entry is still reachable in the PIT"
-				}
-				in.bad("C20.all", "arriving Data leaves a pending Interest it satisfies unresolved; "+why,
-					fmt.Sprintf("Data %s arrived, %s was pending and is satisfied by it, but its callback was not invoked (%s)", a[0], x.desc(), why))
-			}
-		}
+		s.arriveData(in, a[0], lp)
 	case "Nack":
-		in.curName = a[0]
-		in.face.onPkt(enc.NewBufferReader(nackWire(a[0])))
+		s.arriveNack(in, a[0])
 	case "Recfg":
 		// the application writes the selectors of its NEXT Interest into the config struct it re-uses
 		if !in.shared {
@@ -964,6 +1088,8 @@ func (in *inst) express(x *intr) {
 	var err error
 	var ei *ndn.EncodedInterest
 	switch {
+	case in.shared && x.noLife:
+		report.Fatal("harness: an Interest without lifetime in the shared-config style is not modelled")
 	case in.shared:
 		// one config struct per application: set the fields for this Interest in place
 		in.appCfg.CanBePrefix = x.cbp
@@ -976,6 +1102,16 @@ func (in *inst) express(x *intr) {
 		}
 		var e2 error
 		if ei, e2 = (spec.Spec{}).MakeInterest(full, in.appCfg, nil, nil); e2 != nil {
+			report.Fatal("MakeInterest(%s): %v", full, e2)
+		}
+	case x.noLife:
+		ic := &ndn.InterestConfig{CanBePrefix: x.cbp}
+		if x.gen > 0 {
+			g := uint64(x.gen)
+			ic.Nonce = &g
+		}
+		var e2 error
+		if ei, e2 = (spec.Spec{}).MakeInterest(full, ic, nil, nil); e2 != nil {
 			report.Fatal("MakeInterest(%s): %v", full, e2)
 		}
 	case x.gen > 0:
@@ -991,9 +1127,13 @@ func (in *inst) express(x *intr) {
 		}
 		x.failed = true
 	}
-	x.node = in.eng.VerifPitExact(x.nm)
-	if ch := basic.VerifPitChain(x.node); len(ch) > 0 && len(ch[0].Entries) > 0 {
-		x.entry = ch[0].Entries[len(ch[0].Entries)-1]
+	// (an Interest whose record was already identified when an arrival was delivered inside Send keeps
+	// that identity; one already resolved there has no entry any more)
+	if x.entry == nil && len(x.res) == 0 {
+		x.node, x.entry = in.findEntry(x)
+	}
+	if x.node == nil {
+		x.node = in.eng.VerifPitExact(x.nm)
 	}
 }
 
@@ -1007,7 +1147,7 @@ func (in *inst) runDeferred(mode string) {
 			in.deferred = append(in.deferred, x)
 			continue
 		}
-		in.express(&intr{name: x.name, nm: x.nm, cbp: x.cbp, life: x.life, dig: x.dig, gen: x.gen + 1})
+		in.express(&intr{name: x.name, nm: x.nm, cbp: x.cbp, life: x.life, noLife: x.noLife, dig: x.dig, gen: x.gen + 1})
 	}
 }
 
@@ -1227,6 +1367,12 @@ func (s *sys) CheckState(i any) []report.Violation {
 		}
 		in.runTimer(nx)
 	}
+	reach := map[any]bool{}
+	for _, n := range in.eng.VerifPitDump() {
+		for _, e := range n.Entries {
+			reach[e] = true
+		}
+	}
 	for _, x := range in.ints {
 		if len(x.res) == 0 && !x.failed {
 			k, why := "callback never invoked although every timer has fired and run", ""
@@ -1235,6 +1381,22 @@ func (s *sys) CheckState(i any) []report.Violation {
 				if strings.Contains(x.lostBy, "failed to send") {
 					k += "; " + x.lostBy
 				}
+			} else if x.entry != nil && reach[x.entry] {
+				// (white box, key only) the entry never left the PIT: which timeout sweep passed it over?
+				own := false
+				for _, t := range in.tm.timers {
+					if t.owner == x.id && t.state == tDone {
+						own = true
+					}
+				}
+				if own {
+					k += "; its own timeout ran after its deadline and left its expired entry in the PIT (timeout sweep skipped it)"
+				} else {
+					k += "; its entry is still in the PIT and its own timeout was cancelled or never scheduled"
+				}
+				why = " (entry still reachable in the PIT)"
+			} else if x.entry == nil {
+				k += "; it never had an entry in the PIT"
 			}
 			in.bad("C20.once", k, fmt.Sprintf("%s expressed, all timers fired and run, callback count 0%s", x.desc(), why))
 		}
@@ -1280,6 +1442,9 @@ func (in *inst) intrDesc(x *intr) string {
 	f := ""
 	if x.failed {
 		f = "!"
+	}
+	if x.noLife {
+		f += "d"
 	}
 	return fmt.Sprintf("%s,%v,%s,%s,[%s],%s,%s%d%s", x.name, x.cbp, x.dig, relMs(x.at.Add(x.life).Sub(in.tm.now)), ks, x.lostBy, x.retry, x.gen, f)
 }
@@ -1457,6 +1622,30 @@ var configs = map[string]cfgT{
 	// the same fault over duplicates that differ in the implicit digest only (they share a PIT node)
 	"faultd": {faults: true, names: []string{"/a"}, cbps: []bool{false}, lives: []int{10}, digs: []string{"none", "right", "wrong"}, maxInt: 3,
 		dataNames: []string{"/a"}, nackNames: []string{"/a"}, advNext: true},
+	// lifetimes in every order at ONE PIT node (and its child): three lifetimes whose pairwise differences
+	// are equal to (10/20) and larger than (10/40, 20/40) the engine's timeout margin of 10 ms, so that an
+	// Interest expressed LATER can expire - and its own timeout run - while an EARLIER one of the same node
+	// is still alive; duplicates, CanBePrefix mix (Data /a/b resolves only the CanBePrefix ones and cancels
+	// their timeouts), Fire / RunFired split. The pending list of a node is then in no deadline order.
+	"life": {names: []string{"/a"}, cbps: []bool{false, true}, lives: []int{10, 20, 40}, digs: []string{"none"}, maxInt: 3,
+		dataNames: []string{"/a", "/a/b"}, nackNames: []string{"/a"}, advNext: true, adv10: true, split: true},
+	// the same with two nested nodes (timeouts prune upwards through a node whose own entries live on);
+	// life0: the two boundary forms of a lifetime: -1 = none given (InterestConfig.Lifetime nil: the protocol
+	// default of 4 s applies), 0 = an explicit lifetime of zero (may time out at once, never resolves twice)
+	"life2": {names: n2, cbps: []bool{false, true}, lives: []int{10, 40}, digs: []string{"none"}, maxInt: 3,
+		dataNames: n3, nackNames: n2, advNext: true},
+	"life0": {names: []string{"/a"}, cbps: []bool{false, true}, lives: []int{-1, 0, 10}, digs: []string{"none"}, maxInt: 3,
+		dataNames: n2, nackNames: []string{"/a"}, advNext: true, adv10: true},
+	// face model with a free choice of the DELIVERY POINT: every Data/Nack arrival of the universe may be
+	// handed to the engine between two engine calls (Data/Nack events) or INSIDE face.Send of an Express,
+	// before Send - and therefore Express - has returned (Express(...,in=<arrival>): loopback / in-process
+	// face, or the face's reader goroutine winning the race against the sender). The Interest being
+	// transmitted is pending from the moment it is handed to Send: a Data that satisfies it must resolve it.
+	"loop": {inSend: true, names: n2, cbps: []bool{false, true}, lives: []int{10, 40}, digs: []string{"none"}, maxInt: 3,
+		dataNames: n3, nackNames: []string{"/a"}, advNext: true},
+	// ... with implicit digests (duplicates of one node that differ in the digest only)
+	"loopd": {inSend: true, names: []string{"/a"}, cbps: []bool{false, true}, lives: []int{10}, digs: []string{"none", "right", "wrong"}, maxInt: 3,
+		dataNames: n2, nackNames: []string{"/a"}, advNext: true},
 	// tiny alphabets for deep history searches WITHOUT de-duplication (explore.Config.NoDedup): a bug
 	// that adds hidden state no canonical form can see (cached node pointer, reused scratch slice)
 	// cannot be pruned away there
@@ -1510,12 +1699,12 @@ func main() {
 				dev int // 0: no deviation events in the universe (unbounded); else the bound on face-down periods
 			}
 			// cheap configurations first: what they do not use of their share of the budget goes to the rest
-			l := []e{{n: "faultd i=3 in=0", d: 8, dev: 1}, {n: "fault i=3 in=0", d: 6, dev: 1}, {n: "reuse i=3 in=0", d: 8}, {n: "reply i=0 in=2", d: 6}, {n: "ambigh i=0 in=2", d: 7}, {n: "ambig i=2 in=0", d: 6}, {n: "handler i=0 in=2", d: 8}, {n: "digest i=3 in=0", d: 7}, {n: "mixed i=2 in=1", d: 7}, {n: "typedh i=0 in=2", d: 8}, {n: "typed i=3 in=0", d: 7}, {n: "race i=4 in=0", d: 8}, {n: "names i=4 in=0", d: 7}, {n: "siblings i=4 in=0", d: 7}}
+			l := []e{{n: "loopd i=3 in=0", d: 8}, {n: "loop i=3 in=0", d: 7}, {n: "life i=3 in=0", d: 9}, {n: "life2 i=3 in=0", d: 7}, {n: "life0 i=3 in=0", d: 7}, {n: "faultd i=3 in=0", d: 8, dev: 1}, {n: "fault i=3 in=0", d: 6, dev: 1}, {n: "reuse i=3 in=0", d: 8}, {n: "reply i=0 in=2", d: 6}, {n: "ambigh i=0 in=2", d: 7}, {n: "ambig i=2 in=0", d: 6}, {n: "handler i=0 in=2", d: 8}, {n: "digest i=3 in=0", d: 7}, {n: "mixed i=2 in=1", d: 7}, {n: "typedh i=0 in=2", d: 8}, {n: "typed i=3 in=0", d: 7}, {n: "race i=4 in=0", d: 8}, {n: "names i=4 in=0", d: 7}, {n: "siblings i=4 in=0", d: 7}}
 			if th {
 				// audit-*: the same universes searched WITHOUT canonical-state de-duplication to a smaller
 				// depth; a violation key that only shows up there would mean the canonical form merges
 				// states with different futures.
-				l = []e{{n: "faultd i=4 in=0", d: 8, dev: 2}, {n: "fault i=4 in=0", d: 8, dev: 2}, {n: "reuse i=4 in=0", d: 8}, {n: "reply i=0 in=3", d: 9}, {n: "ambigh i=0 in=3", d: 8}, {n: "ambig i=4 in=0", d: 8}, {n: "digest i=4 in=0", d: 8}, {n: "mixed i=3 in=2", d: 9}, {n: "typedh i=0 in=3", d: 8}, {n: "typed i=4 in=0", d: 8}, {n: "race i=5 in=0", d: 10}, {n: "names i=5 in=0", d: 10}, {n: "siblings i=5 in=0", d: 10},
+				l = []e{{n: "loopd i=4 in=0", d: 8}, {n: "loop i=4 in=0", d: 7}, {n: "life i=5 in=0", d: 10}, {n: "life2 i=4 in=0", d: 9}, {n: "life0 i=4 in=0", d: 9}, {n: "faultd i=4 in=0", d: 8, dev: 2}, {n: "fault i=4 in=0", d: 8, dev: 2}, {n: "reuse i=4 in=0", d: 8}, {n: "reply i=0 in=3", d: 9}, {n: "ambigh i=0 in=3", d: 8}, {n: "ambig i=4 in=0", d: 8}, {n: "digest i=4 in=0", d: 8}, {n: "mixed i=3 in=2", d: 9}, {n: "typedh i=0 in=3", d: 8}, {n: "typed i=4 in=0", d: 8}, {n: "race i=5 in=0", d: 10}, {n: "names i=5 in=0", d: 10}, {n: "siblings i=5 in=0", d: 10},
 					{n: "audit-race i=3 in=0", d: 5}, {n: "audit-names i=3 in=0", d: 4}, {n: "audit-handler i=0 in=2", d: 5},
 					{n: "handler i=0 in=3", d: 12}} // biggest last: it gets whatever budget the others left
 			}
@@ -1553,7 +1742,7 @@ func main() {
 			}
 			return 85 * time.Second
 		},
-		Rule: "BFS over event histories (Express with name/CanBePrefix/lifetime/implicit digest - from a fresh InterestConfig per Interest or from one config struct the application re-uses and overwrites while Interests are pending -, face Down/Up with Express failing to send in between, Data and Nack arrivals, clock advances, timer Fire / RunFired as separate events, Attach/DetachHandler, incoming Interests, Reply) executed on a real basic.Engine with a harness face and a harness timer; every callback invocation is checked when it happens (at most once, Data satisfies the Interest, timeout not before lifetime, Nack only for its name), every Data arrival must resolve every pending Interest it satisfies, every incoming Interest (InterestLifetime absent = 4 s default / 0 / 10 / 20 ms; bare, in an LpPacket, in an LpPacket with a PIT token) must reach the handler at the longest attached prefix, Reply must transmit the Data (bare or as LpPacket fragment, never with a PIT token other than the Interest's) before and must not transmit after the deadline (clock steps of 10 ms and jumps exactly onto a deadline, where both answers are accepted); after every transition the quiescence closure (all timers fire and run) must leave every Interest resolved exactly once",
+		Rule: "BFS over event histories (Express with name/CanBePrefix/lifetime/implicit digest - from a fresh InterestConfig per Interest or from one config struct the application re-uses and overwrites while Interests are pending -, face Down/Up with Express failing to send in between, Data and Nack arrivals - between two engine calls or, in the loop universes, delivered by the face inside Send while Express is still running -, clock advances, timer Fire / RunFired as separate events, Attach/DetachHandler, incoming Interests, Reply) executed on a real basic.Engine with a harness face and a harness timer; every callback invocation is checked when it happens (at most once, Data satisfies the Interest, timeout not before lifetime, Nack only for its name), every Data arrival must resolve every pending Interest it satisfies, every incoming Interest (InterestLifetime absent = 4 s default / 0 / 10 / 20 ms; bare, in an LpPacket, in an LpPacket with a PIT token) must reach the handler at the longest attached prefix, Reply must transmit the Data (bare or as LpPacket fragment, never with a PIT token other than the Interest's) before and must not transmit after the deadline (clock steps of 10 ms and jumps exactly onto a deadline, where both answers are accepted); after every transition the quiescence closure (all timers fire and run) must leave every Interest resolved exactly once",
 		Assumptions: []string{
 			"timer/receive interleavings are explored at the granularity of whole engine callbacks: the engine holds pitLock for the whole of onData/onNack/timeoutFunc, and starts no goroutine itself, so finer interleavings do not exist",
 			"the harness timer has time.AfterFunc semantics: cancel is effective only until the timer has fired; a fired timer's callback may run arbitrarily later (goroutine blocked on pitLock)",
@@ -1562,7 +1751,9 @@ func main() {
 			"a Nack for name N may (not must) resolve pending Interests whose name without the implicit-digest component is N; the property is silent on whether a Nack must be delivered",
 			"application memory: an ndn.InterestConfig handed to MakeInterest/Express belongs to the application, which may overwrite it (CanBePrefix, MustBeFresh, the lifetime variable behind Lifetime) as soon as Express has returned; the Interest keeps the selectors and lifetime it was expressed with",
 			"face fault: Engine.Stop/Start close and re-open the face (at most 1 (quick) / 2 (thorough) down periods per history); while it is down nothing arrives and Send fails. An Interest whose Express returned an error may be resolved at most once or never (the property does not say whether it counts as expressed); every other Interest, expressed before, during (none succeed) or after the fault, must resolve exactly once; a Reply while the face is down need not be transmitted",
-			"finite universes: names /a,/a/b,/a/b/c,/a/c (+/x Data; prefixes down to /a/b/c/d and /a/x,/a/b/c/x for incoming Interests; /a/seg=1,/a/v=1,/a/%01 for component types; /a/v=1,/a/v%3D1,/a/9=x,/a/9%3Dx,/a/x,/a/32=x for look-alike components), lifetimes 10/20 ms (incoming Interests also 0 and no InterestLifetime element), at most 4 (quick) / 5 (thorough) expressed Interests and 2/3 incoming Interests per history",
+			"face model: an arrival may be handed to the engine at every point at which the engine is not inside its own receive path: between two engine calls, or inside face.Send of an Express before Send returns (in-process/loopback face, or the reader goroutine winning the race against the sender); an Interest is pending from the moment Express hands it to face.Send, so a Data that arrives there and satisfies it must resolve it (a Nack may); an Express that calls face.Send with the PIT lock held is reported instead of executed (the receive path would block forever on a real face)",
+			"lifetimes: 10/20/40 ms at one PIT node in every order with duplicates (differences equal to and larger than the engine's 10 ms timeout margin), 10/40 ms over two nested nodes, and the boundary forms 'no lifetime given' (InterestConfig.Lifetime nil: the protocol default of 4 s is the lifetime the timeout clause is measured against) and an explicit 0",
+			"finite universes: names /a,/a/b,/a/b/c,/a/c (+/x Data; prefixes down to /a/b/c/d and /a/x,/a/b/c/x for incoming Interests; /a/seg=1,/a/v=1,/a/%01 for component types; /a/v=1,/a/v%3D1,/a/9=x,/a/9%3Dx,/a/x,/a/32=x for look-alike components), lifetimes 10/20 ms (life universes: 10/20/40 ms, none, 0; incoming Interests also 0 and no InterestLifetime element), at most 4 (quick) / 5 (thorough) expressed Interests and 2/3 incoming Interests per history",
 		},
 	})
 }
